@@ -13,6 +13,7 @@ import (
 type refCase struct {
 	Edits  []refEdit `json:"edits"`
 	Import bool      `json:"import,omitempty"` // the file also imports another (unrelated, valid) file: the merged document goes through the import path of the loader
+	Global bool      `json:"global,omitempty"` // the document is the GLOBAL configuration ($HOME/.taskctl/config.yaml) and there is no project file: `taskctl <pipeline>` without -c
 }
 
 type refEdit struct {
@@ -31,6 +32,9 @@ func (c refCase) String() string {
 	pre := ""
 	if c.Import {
 		pre = "with-import:"
+	}
+	if c.Global {
+		pre = "global-only:"
 	}
 	if len(parts) == 0 {
 		return pre + "base"
@@ -265,6 +269,9 @@ func c18One(x *ctx, c refCase) bool {
 	ok, why := a.wellFormed()
 	dir := newCaseDir(x.root)
 	defer os.RemoveAll(dir)
+	if c.Global {
+		return c18Global(x, c, a, ok, why, dir)
+	}
 	lc := LoadCase{Files: map[string]string{"cfg.yaml": a.yaml()}, Main: "cfg.yaml", Note: c.String()}
 	if c.Import {
 		lc.Files["cfg.yaml"] = "import: [extra.yaml]\n" + a.yaml()
@@ -316,6 +323,52 @@ func c18One(x *ctx, c refCase) bool {
 			bad = true
 		case b.code != 0 && strings.Contains(b.out, "unknown task"):
 			x.violation("run-aborts", kinds, fmt.Sprintf("running pipeline %s aborted the process from inside the scheduler: %s (%s)", p, firstLines(b.out, 3), c), c, true)
+			bad = true
+		}
+	}
+	return bad
+}
+
+// c18Global: the same documents as the only configuration there is - the global one, found through $HOME, no
+// project file anywhere and no -c: a dangling reference must stop `taskctl <pipeline>` before anything runs.
+func c18Global(x *ctx, c refCase, a *absConfig, ok bool, why string, dir string) bool {
+	if os.Getenv("VERIF_TASKCTL") == "" {
+		return false
+	}
+	wd := dir + "/empty"
+	os.MkdirAll(wd+"/home/.taskctl", 0o755)
+	os.WriteFile(wd+"/home/.taskctl/config.yaml", []byte(a.yaml()), 0o644)
+	kinds := "global,"
+	for _, e := range c.Edits {
+		kinds += e.Kind + ","
+	}
+	var pns []string
+	for p := range a.Pipelines {
+		pns = append(pns, p)
+	}
+	sort.Strings(pns)
+	x.res.Evaluations++
+	x.kinds[fmt.Sprintf("%s wellformed=%v", kinds, ok)] = true
+	bad := false
+	for _, p := range pns {
+		b := runBinary(wd, "--output", "raw", p)
+		x.res.Extra["binary_runs"]++
+		switch {
+		case b.exhausted:
+		case b.hang:
+			x.violation("run-hangs", kinds, fmt.Sprintf("`taskctl %s` with this document as the global configuration did not finish within 30s (%s)", p, c), c, true)
+			bad = true
+		case strings.Contains(b.out, "panic:") || strings.Contains(b.out, "fatal error:"):
+			x.violation("run-crashes", kinds, fmt.Sprintf("`taskctl %s` crashed: %s (%s)", p, firstLines(b.out, 5), c), c, true)
+			bad = true
+		case ok && b.code != 0:
+			x.violation("run-fails", kinds, fmt.Sprintf("`taskctl %s` with a well-formed global configuration of `true` tasks exited %d: %s (%s)", p, b.code, firstLines(b.out, 5), c), c, true)
+			bad = true
+		case !ok && b.code == 0:
+			x.violation("accepted-dangling", kinds, fmt.Sprintf("`taskctl %s` succeeded although %s (%s)", p, why, c), c, true)
+			bad = true
+		case !ok && strings.Contains(b.out, "unknown task") && !strings.Contains(b.out, "invalid config"):
+			x.violation("run-aborts", kinds, fmt.Sprintf("`taskctl %s` was aborted from inside the scheduler instead of being rejected at load time: %s (%s)", p, firstLines(b.out, 3), c), c, true)
 			bad = true
 		}
 	}
@@ -393,6 +446,11 @@ func unitC18(x *ctx) {
 		do(refCase{})
 		for _, e := range edits {
 			do(refCase{Edits: []refEdit{e}})
+		}
+		// the same documents as the global configuration, with no project file at all
+		do(refCase{Global: true})
+		for _, e := range edits {
+			do(refCase{Edits: []refEdit{e}, Global: true})
 		}
 		// the same with an import section in the file
 		do(refCase{Import: true})
